@@ -222,7 +222,7 @@ Definition wf_deps : Prop :=
 (* labels of the scheduler itself; the others are moves of the environment *)
 Definition internal (l : label) : bool :=
   match l with
-  | WExecEnd _ _ | HEnd _ _ | SigFlag | Timeout | WExecRefused _ | HRefused _ => false
+  | WExecEnd _ _ | HEnd _ _ | SigFlag | Timeout => false
   | _ => true end.
 
 Definition busy (x : node) : bool := match ph x with PIdle | PGone | PExec => false | _ => true end.
@@ -240,7 +240,9 @@ Proof.
   - (* PStarting *)
     destruct (dry c) eqn:Ed.
     + exists (WDryExec i). eexists. split; [reflexivity|]. cbn [Model.step]. rewrite Ep, Hi, Ed. reflexivity.
-    + exists (WExecStart i). eexists. split; [reflexivity|]. cbn [Model.step]. rewrite Ep, Hi, Ed. reflexivity.
+    + destruct (timedout s) eqn:Et.
+      * exists (WExecRefused i). eexists. split; [reflexivity|]. cbn [Model.step]. rewrite Ep, Hi, Ed, Et. reflexivity.
+      * exists (WExecStart i). eexists. split; [reflexivity|]. cbn [Model.step]. rewrite Ep, Hi, Ed, Et. reflexivity.
   - exists (WAfter i false). eexists. split; [reflexivity|]. cbn [Model.step]. rewrite Ep, Hi. reflexivity.
   - exists (WRetryWake i). eexists. split; [reflexivity|]. cbn [Model.step]. rewrite Ep, Hi. reflexivity.
   - exists (WRepeatWake i). eexists. split; [reflexivity|]. cbn [Model.step]. rewrite Ep, Hi. reflexivity.
@@ -293,8 +295,13 @@ Proof.
     destruct (ph (nd s i)); try discriminate; auto. }
   (* a queued Signal pass *)
   destruct (sigq s) as [|q0 qs] eqn:Eq.
-  2:{ left. exists SigNode. cbn [Model.step]. rewrite Eq. destruct (repeat (steps c q0)); [eauto|].
-      destruct (st (nd s q0)); eauto. }
+  2:{ left. destruct (repeat (steps c q0)) eqn:Er.
+      - exists (SigNode false). eexists. split; [reflexivity|]. cbn [Model.step]. rewrite Eq, Er. reflexivity.
+      - destruct (st (nd s q0)) eqn:Est;
+          try (exists (SigNode false); eexists; split; [reflexivity|]; cbn [Model.step]; rewrite Eq, Er, Est; reflexivity).
+        destruct (0 <? att (nd s q0)) eqn:Ea.
+        + exists (SigNode true). eexists. split; [reflexivity|]. cbn [Model.step]. rewrite Eq, Er, Est, Ea. reflexivity.
+        + exists (SigNode false). eexists. split; [reflexivity|]. cbn [Model.step]. rewrite Eq, Er, Est, Ea. reflexivity. }
   destruct (pc s) as [|i| |todo cur|] eqn:Ep.
   - (* LHead *)
     destruct (canceled s || all_terminal c s) eqn:Ex.
@@ -361,8 +368,10 @@ Proof.
     + destruct (dry c) eqn:Ed.
       * exists (HSkip h). eexists. split; [reflexivity|]. cbn [Model.step]. rewrite Ep, Ed.
         assert (handler_eqb h h = true) as -> by (destruct h; reflexivity). reflexivity.
-      * exists (HStart h). eexists. split; [reflexivity|]. cbn [Model.step]. rewrite Ep, Ed.
-        assert (handler_eqb h h = true) as -> by (destruct h; reflexivity). reflexivity.
+      * assert (handler_eqb h h = true) as Hh by (destruct h; reflexivity).
+        destruct (timedout s) eqn:Et.
+        -- exists (HRefused h). eexists. split; [reflexivity|]. cbn [Model.step]. rewrite Ep, Ed, Et, Hh. reflexivity.
+        -- exists (HStart h). eexists. split; [reflexivity|]. cbn [Model.step]. rewrite Ep, Ed, Et, Hh. reflexivity.
   - congruence.
 Qed.
 
